@@ -134,15 +134,32 @@ func runC09(p *P, r *R) {
 		// the chain handed over is the one that was built: offset operand comes from the send buffer's root
 		nRoot, nSites := 0, 0
 		_, wr := p.putFamily()
+		prodQ, _ := p.queueRoles()
+		var prodNamesQ []string
+		for _, pf := range prodQ {
+			prodNamesQ = append(prodNamesQ, p.fname(pf))
+		}
 		for _, g := range append([]*ssa.Function{fl}, wr...) {
-			for _, si := range findInstrs(g, mStoreWord("queueElement.offsetInShmBuf")) {
-				if c, ok := si.(*ssa.Store).Val.(*ssa.Call); ok && p.calleeName(&c.Call) == "(*linkedBuffer).rootBufOffset" {
+			for _, pi := range findInstrs(g, p.mCall(prodNamesQ...)) {
+				nSites++
+				okRoot := false
+				for _, st := range elementFieldStores(pi, 1, "queueElement.offsetInShmBuf") {
+					if c, ok := st.Val.(*ssa.Call); ok && p.calleeName(&c.Call) == "(*linkedBuffer).rootBufOffset" {
+						okRoot = true
+					}
+				}
+				if !okRoot {
+					// the element is a parameter of an enqueue helper: judged at the helper's call sites in Flush
+					if cc := callCommon(pi); cc != nil && len(cc.Args) > 1 {
+						if _, isParam := cc.Args[1].(*ssa.Parameter); isParam && g != fl {
+							nSites--
+							continue
+						}
+					}
+				}
+				if okRoot {
 					nRoot++
 				}
-			}
-			prod, _ := p.queueRoles()
-			for _, pf := range prod {
-				nSites += len(findInstrs(g, p.mCall(p.fname(pf))))
 			}
 		}
 		r.ob("R09.1", "(*Stream).Flush: every element enqueued carries the root offset of the flushed chain", p.pos(fl.Pos()),
@@ -188,13 +205,48 @@ func runC09(p *P, r *R) {
 			}
 		}
 		r.count("R09.2", "loop-body entries (dequeued element) in "+fn, len(starts), 1)
-		disch := func(in ssa.Instruction) bool {
+		stateEdge := func(b *ssa.BasicBlock, i int) bool {
+			ifi := blockIf(b)
+			if ifi == nil {
+				return true
+			}
+			// an element whose state is not "opened" carries no buffer
+			return relOn(ifi.Cond, i == 0, isState, isOpened) != "!="
+		}
+		var disch func(in ssa.Instruction) bool
+		var disposes func(g *ssa.Function, depth int) bool
+		disposes = func(g *ssa.Function, depth int) bool {
+			if depth <= 0 || g.Blocks == nil {
+				return false
+			}
+			okg, _ := p.findBadPath(g, []Point{{g.Blocks[0], -1}}, pathOpts{
+				Discharge: disch,
+				Bad: func(in ssa.Instruction) bool {
+					ret, isRet := in.(*ssa.Return)
+					return isRet && !isErrorExit(ret)
+				},
+				EdgeOK: stateEdge,
+			})
+			return okg
+		}
+		disch = func(in ssa.Instruction) bool {
 			c, ok := in.(*ssa.Call)
 			if !ok {
 				return false
 			}
 			n := p.calleeName(&c.Call)
-			return n == "(*Session).handleStreamMessage" || n == "(*bufferManager).recycleBuffers"
+			if n == "(*Session).handleStreamMessage" || n == "(*bufferManager).recycleBuffers" {
+				return true
+			}
+			// a per-element helper (takes the element) that disposes of it on every non-error exit
+			if g := p.localCallee(c); g != nil {
+				for _, a := range c.Call.Args {
+					if namedName(a.Type()) == "queueElement" {
+						return disposes(g, 2)
+					}
+				}
+			}
+			return false
 		}
 		ok, res := p.findBadPath(f, starts, pathOpts{
 			Discharge: disch,
